@@ -549,3 +549,16 @@ Proof.
     destruct (i_action i); cbn; (split; [|reflexivity]);
       destruct (i_val i) as [|[[]|[]|]]; cbn; destruct (i_sa i); reflexivity.
 Qed.
+
+(* ---------- validator selection ---------- *)
+Lemma constructor_installs_validator a b : consulted (set_revocation a b) <> None.
+Proof. destruct a, b; cbn; discriminate. Qed.
+
+Lemma selection_matches_xmodel a b x :
+  x_action x <> Skip -> x_val x = val_of_options a b -> (a || b = true) ->
+  map (fun k => Some (xk_which k)) (xo_calls (xmodel x)) = [consulted (set_revocation a b)].
+Proof.
+  intros Ha Hv Hab.
+  assert (H : (x_val x = 1 \/ x_val x = 2 \/ x_val x = 3)%N) by (rewrite Hv; destruct a, b; cbn in *; auto; discriminate).
+  rewrite (xarguments _ Ha H), Hv. destruct a, b; cbn in *; try reflexivity; discriminate.
+Qed.
